@@ -315,7 +315,10 @@ def valgrind_findings(log):
             kind = "uninit-read"
         if kind:
             text = re.sub(r"==\d+== ", "", block)
-            out.append((kind, frame_kind(text), text[:1200]))
+            # keep the head and, if present, the "block was free'd" part of the report
+            i = text.find("free'd")
+            excerpt = text[:900] + ("\n...\n" + text[max(0, i - 120): i + 500] if i > 900 else "")
+            out.append((kind, frame_kind(text), excerpt))
     return out
 
 
@@ -443,6 +446,12 @@ def run_pipeline(prop, mode, tier, seed, replay=None):
             # never an empty sample list: at least the first world as generated
             w0 = ok[0]
             rep.samples.append({"world": w0["name"], "origin": w0.get("origin"), "opts": w0.get("opts"), "wit": w0.get("wit", "")[:1500]})
+        # collapse repeated inconclusive reasons (one entry per reason, with a count)
+        merged = {}
+        for i in rep.inconclusive:
+            why = re.sub(r"^(native-x86_64-(debug|release)|miri-\S+|valgrind-release): ", "", str(i.get("why")))
+            merged[why] = merged.get(why, 0) + int(i.get("count", 1))
+        rep.inconclusive = [{"why": k, "count": v} for k, v in merged.items()]
         rep.extra["runs_by_platform"] = plat_counts
         rep.extra["run_seconds_by_platform"] = plat_secs
         rep.extra["pipeline_s"] = round(time.time() - t_start, 1)
